@@ -397,6 +397,7 @@ def run(ctx):
                        'values are identifier tags; derivative denominators agree per key']
     if ctx.ensure_library():
         ctx.prove(['theories/Props/C10.v'])
+        ctx.loops_obligations()        # regenerated from the current source: see coq/obl/Lp_C10.v
     cases = gen_cases(ctx.rng, ctx.tier)
     ctx.log('%d cases' % len(cases))
     terms, idx, bad = [], [], []
